@@ -57,6 +57,31 @@ impl<'a> PayIter<'a> {
         ensures r.v@ == self.v@, r.f == f
     { unimplemented!() }
 }
+/// iter().map(f).max(): None on an empty listing, otherwise one of the values f yields (that it is the
+/// largest is not stated: a weaker postcondition only allows more behaviours)
+pub struct PayMap<'a, F> { pub v: &'a Vec<ListsendpaysPayments>, pub f: F }
+impl<'a> PayIter<'a> {
+    #[verifier::external_body]
+    pub fn map<B, F: FnMut(&'a ListsendpaysPayments) -> B>(self, f: F) -> (r: PayMap<'a, F>)
+        ensures r.v@ == self.v@, r.f == f
+    { unimplemented!() }
+}
+impl<'a, F> PayMap<'a, F> {
+    #[verifier::external_body]
+    pub fn max<B: Ord>(self) -> (r: Option<B>) where F: FnMut(&'a ListsendpaysPayments) -> B
+        requires forall|x: &ListsendpaysPayments| call_requires(self.f, (x,)),
+        ensures
+            self.v@.len() == 0 ==> r is None,
+            self.v@.len() > 0 ==> (r is Some && exists|i: int| 0 <= i < self.v@.len() && call_ensures(self.f, (&(#[trigger] self.v@[i]),), r->0)),
+    { unimplemented!() }
+    #[verifier::external_body]
+    pub fn min<B: Ord>(self) -> (r: Option<B>) where F: FnMut(&'a ListsendpaysPayments) -> B
+        requires forall|x: &ListsendpaysPayments| call_requires(self.f, (x,)),
+        ensures
+            self.v@.len() == 0 ==> r is None,
+            self.v@.len() > 0 ==> (r is Some && exists|i: int| 0 <= i < self.v@.len() && call_ensures(self.f, (&(#[trigger] self.v@[i]),), r->0)),
+    { unimplemented!() }
+}
 impl<'a> PayIter<'a> {
     /// find_map(f) == filter_map(f).next(): the first element for which f returns Some
     #[verifier::external_body]
